@@ -426,3 +426,34 @@ Proof.
     rewrite Hc. reflexivity. }
   rewrite Hl. reflexivity.
 Qed.
+
+(* ---------- files and links of a snapshot ---------- *)
+Definition leaves_at (rp : rpath) (e : entry) : list (rpath * entry) :=
+  filter (fun pe => is_leaf (snd pe)) (entries rp e).
+
+Definition leaves_list (rp : rpath) (es : list (name * entry)) : list (rpath * entry) :=
+  filter (fun pe => is_leaf (snd pe)) (entries_list rp es).
+
+Lemma leaves_list_nil rp : leaves_list rp [] = [].
+Proof. reflexivity. Qed.
+
+Lemma leaves_list_cons rp n e es :
+  leaves_list rp ((n, e) :: es)
+  = (if is_leaf e then [(n :: rp, e)] else []) ++ leaves_at (n :: rp) e ++ leaves_list rp es.
+Proof.
+  unfold leaves_list, leaves_at. cbn [entries_list]. rewrite filter_app. cbn [filter snd].
+  destruct (is_leaf e); reflexivity.
+Qed.
+
+Lemma leaves_at_dir rp es : leaves_at rp (EDir es) = leaves_list rp es.
+Proof. unfold leaves_at, leaves_list. rewrite entries_dir. reflexivity. Qed.
+
+Lemma leaves_at_phantom rp es : leaves_at rp (EPhantom es) = leaves_list rp es.
+Proof. unfold leaves_at, leaves_list. rewrite entries_phantom. reflexivity. Qed.
+
+Lemma leaves_at_dirkind rp es (mask : bool) :
+  leaves_at rp (if mask then EPhantom es else EDir es) = leaves_list rp es.
+Proof. destruct mask; [apply leaves_at_phantom|apply leaves_at_dir]. Qed.
+
+Lemma leaves_leaves_at e : leaves e = leaves_at [] e.
+Proof. reflexivity. Qed.
